@@ -613,7 +613,7 @@ func (fx *Fx) specIdent(env *SpecEnv, name string) Val {
 		// a local declared in a nested scope: usable where the state holds exactly one live variable of that name
 		var found types.Object
 		n := 0
-		for o := range st.vars {
+		for o := range env.st.vars { // locals denote their current value, also inside old()
 			if o.Name() == name {
 				found = o
 				n++
@@ -623,7 +623,7 @@ func (fx *Fx) specIdent(env *SpecEnv, name string) Val {
 			if c.boxedVars[found] {
 				sfail("variable %s is boxed; not usable by name here", name)
 			}
-			return Val{T: st.vars[found], S: c.sortOf(found.Type()), GT: found.Type()}
+			return Val{T: env.st.vars[found], S: c.sortOf(found.Type()), GT: found.Type()}
 		}
 		if fx.fi != nil && fx.localNamed(name) {
 			sfail("variable %s is not in scope here", name)
@@ -825,6 +825,37 @@ func (fx *Fx) specCall(env *SpecEnv, e *SCall) Val {
 				}
 			}
 			return Val{T: fmt.Sprint(c.codeId(key)), S: "Int", GT: intT}
+		case "preservedSince":
+			// preservedSince(N, "elems(T)"): unchanged, at every reference that existed then, since the head of the current iteration of loop N
+			n, ok := e.Args[0].(*SInt)
+			s2, ok2 := e.Args[1].(*SStr)
+			if !ok || !ok2 {
+				sfail("preservedSince(N, \"entry\")")
+			}
+			hs := fx.loopHeads[n.V]
+			if hs == nil {
+				sfail("preservedSince(%s, ...): not inside loop %s", n.V, n.V)
+			}
+			pkg := env.pkg
+			if pkg == nil {
+				pkg = fx.pkg
+			}
+			keys, err := fx.w.resolveModEntry(pkg, fx.fi, s2.V)
+			if err != nil {
+				sfail("preservedSince(%q): %v", s2.V, err)
+			}
+			var parts []string
+			for _, k := range keys {
+				srt, known := c.heapSorts()[k]
+				if !known {
+					continue
+				}
+				parts = append(parts, fmt.Sprintf("(forall ((r!f Int)) (! (=> (and (< 0 r!f) (<= r!f %s)) (= (select %s r!f) (select %s r!f))) :pattern ((select %s r!f))))", hs.alloc, env.st.heap(k, srt), hs.heap(k, srt), env.st.heap(k, srt)))
+			}
+			if len(parts) == 0 {
+				return Val{T: "true", S: "Bool", GT: boolT}
+			}
+			return Val{T: "(and " + strings.Join(parts, " ") + " true)", S: "Bool", GT: boolT}
 		case "preserved":
 			// preserved("elems([]int)"): the heap is unchanged at every reference that existed at entry (old state)
 			s, ok := e.Args[0].(*SStr)
@@ -845,7 +876,7 @@ func (fx *Fx) specCall(env *SpecEnv, e *SCall) Val {
 				if !known {
 					continue
 				}
-				parts = append(parts, fmt.Sprintf("(forall ((r!f Int)) (=> (<= r!f %s) (= (select %s r!f) (select %s r!f))))", env.old.alloc, env.st.heap(k, srt), env.old.heap(k, srt)))
+				parts = append(parts, fmt.Sprintf("(forall ((r!f Int)) (! (=> (and (< 0 r!f) (<= r!f %s)) (= (select %s r!f) (select %s r!f))) :pattern ((select %s r!f))))", env.old.alloc, env.st.heap(k, srt), env.old.heap(k, srt), env.st.heap(k, srt)))
 			}
 			if len(parts) == 0 {
 				return Val{T: "true", S: "Bool", GT: boolT}
@@ -1482,5 +1513,12 @@ func (fx *Fx) localNamed(name string) bool {
 		}
 		return !found
 	})
+	if !found {
+		for node, obj := range fx.info.Implicits {
+			if obj != nil && obj.Name() == name && node.Pos() >= root.Pos() && node.End() <= root.End() {
+				return true
+			}
+		}
+	}
 	return found
 }
